@@ -1015,6 +1015,37 @@ fn authentic_oddities(rep: &Report, ids: &[Ident]) {
             rep.violation("file/authentic-rejected", case, format!("chunk decryption of an authentic stream with chunk lengths {:?}: {}", ch, res.brief()));
         }
     });
+    // (c) the input is a directory (the open succeeds, the first read fails with EISDIR), as FILE argument and as stdin
+    {
+        let mut dj: Vec<(Vec<&str>, bool)> = vec![];
+        for base in [vec!["decrypt", "-t", "alice", "-k", "kr.txt", "-o", "out.bin", "--env-pass"], vec!["password", "decrypt", "-o", "out.bin", "--env-pass"], vec!["encrypt", "-t", "alice", "-f", "alice", "-k", "kr.txt", "-o", "out.bin", "--env-pass"], vec!["password", "encrypt", "-o", "out.bin", "--env-pass"]] {
+            for as_stdin in [false, true] {
+                dj.push((base.clone(), as_stdin));
+            }
+        }
+        let alice2 = Party::new(seed, "alice", "alicepw");
+        dj.par_iter().for_each(|(base, as_stdin)| {
+            rep.eval(1);
+            rep.nontrivial(format!("input-is-a-directory-{:?}-{}", base, as_stdin).as_bytes());
+            let sc = Scratch::new();
+            sc.write("kr.txt", alice2.entry(true).as_bytes());
+            let _ = std::fs::create_dir_all(sc.0.join("adir"));
+            let mut a = base.clone();
+            let mut c;
+            if *as_stdin {
+                c = Cmd::new(&a);
+                c.stdin_path = Some("adir".into());
+            } else {
+                a.insert(if a[0] == "password" { 2 } else { 1 }, "adir");
+                c = Cmd::new(&a);
+            }
+            c = c.env("KESTREL_PASSWORD", "alicepw");
+            let o = proc::run(&c, &sc.0);
+            if let Err(e) = o.well_behaved() {
+                rep.violation("panic/input-is-a-directory", json!({"kind":"odd-file","directory":true,"args":a,"stdin":as_stdin}), format!("kestrel {} with a directory as {}: {} ({})", a.join(" "), if *as_stdin { "stdin" } else { "FILE" }, e, o.summary().chars().take(200).collect::<String>()));
+            }
+        });
+    }
     rep.extra("authentic_oddities", json!({"locked_key_lengths":lens.len(),"chunk_profiles":profiles.len()}));
 }
 
